@@ -99,6 +99,7 @@ def check(ctx):
     ctx.attempt(_forwarding)
     ctx.attempt(_globals_inventory)
     ctx.attempt(forward.check_all, module_suffixes=('plssdesc.plssdesc', 'tract.tract', 'tract.tract_parse'))
+    ctx.attempt(common.none_vs_false, [f for f in ctx.repo.funcs.values() if f.module.name.endswith('config.config')])
 
 
 def seed_guard(ctx, seeded=None):
